@@ -298,6 +298,9 @@ theorem undo_restores_deleted (mask : List Bool) (r : Rec) (h : serializeU (spen
     | true => simp [hh] at h
   simp [mergeUndo, undoOf, undoOuts_of_all_spent mask r.outs ha]
 
+example : ∃ (mask : List Bool) (r : Rec), serializeU (spend mask r) = none ∧ (serializeU r).isSome :=
+  ⟨[true], ⟨List.replicate 32 0, 7, false, [some ⟨1, [0x51]⟩]⟩, by decide, by decide⟩
+
 /-- **undo_restores_bytesU.** Byte level, plain format: the partly spent record as stored (`b`) decodes, and the
     merge of the undo record with that decoded record serialises to exactly the bytes of the original record. -/
 theorem undo_restores_bytesU (mask : List Bool) (r : Rec) (h : WFRec r) (b : Bytes)
@@ -333,6 +336,8 @@ example : ∃ (mask : List Bool) (r : Rec), WFRec r ∧ (serializeU (spend mask 
 theorem loader_ring_safe (s : Ring) (h : RingReach Gen.UtxoLoaderFacts.channelSize s) :
     s.Safe Gen.UtxoLoaderFacts.buffersCnt :=
   ring_safe_of _ _ (by decide) h
+
+example : RingReach Gen.UtxoLoaderFacts.channelSize ⟨0, 0, 0⟩ := .init
 
 /-- **loader_ring_needs_two_spare_counterexample.** `CHANNEL_SIZE = BUFFERS_CNT - 1` is not enough: with 6 buffers and a
     channel of 5 the reader reaches pack 6 (buffer 0 again) while the consumer is still walking pack 0. -/
